@@ -20,7 +20,7 @@
 //	   bloom(h) has three bits (h*a, h*b+1, h/3+c mod 2048) when h >= adh, h > 0 and h % m == t, else it is empty.
 //	   Output: in-memory filter start, persisted filter-start key, current height, bloomCache population, checksum of all bloom
 //	   records, checksum per indexed section of the blooms recovered from its 2048 stored bit vectors.
-//	   Predicate: (P1) every height saved at or above adh reads back its bloom; (P2) every section whose last height was saved and
+//	   Predicate: (P1) every height saved at or above adh (legacy start: and at or above the filter start) reads back its bloom; (P2) every section whose last height was saved and
 //	   which starts at or above the filter start is indexed, and every indexed section equals the transposition of the stored
 //	   blooms of its heights; (P3) no height in [max(filter start, adh), current] lacks a bloom record.
 //
@@ -475,8 +475,8 @@ func checkStore(bs *ledgerstore.BlockStore, o bsObs, h *hist, get func(uint32) (
 	}
 	sort.Slice(hs, func(i, j int) bool { return hs[i] < hs[j] })
 	for _, x := range hs {
-		if x < h.adh {
-			continue
+		if x < h.adh || (h.legacyTo >= 0 && x < o.fs) {
+			continue // legacy data: only the advertised range [filter start, current] is promised (theorem C43_bookkeeping, clause A)
 		}
 		got, err := get(x)
 		want := h.saved[x]
@@ -849,9 +849,10 @@ func execL(f []string) hx.Result {
 		// the property on the ledger's own outputs: logs from the event store against the bloom from the block store
 		curH := kit.Ledger.GetCurrentBlockHeight()
 		seen := 0
+		fsNow := kit.Store.GetFilterStart()
 		for x := uint32(1); x <= curH && res.Fail == ""; x++ {
-			if int64(x) <= h.legacyTo {
-				continue
+			if int64(x) <= h.legacyTo || (h.legacyTo >= 0 && x < fsNow) {
+				continue // after a strip only the advertised range [filter start, current] is promised
 			}
 			blk, err := kit.Ledger.GetBlockByHeight(x)
 			must(err)
@@ -1180,7 +1181,7 @@ func gen(r *hx.Rand, tier string, i int) string {
 	if tier == "thorough" && i < 2 {
 		return genL(r, true)
 	}
-	budget := 13000
+	budget := 10000
 	if tier == "thorough" {
 		budget = 30000
 	}
@@ -1243,7 +1244,7 @@ func main() {
 		Gen:    gen,
 		Exec:   exec,
 		Corpus: corpus(),
-		N:      map[string]int{"quick": 230, "thorough": 1500},
+		N:      map[string]int{"quick": 200, "thorough": 1500},
 		Init:   setup,
 	})
 }
